@@ -14,7 +14,7 @@ from . import signals
 from .c01 import SUBGRID, opts_of
 
 PID = 'C03'
-TIMEOUT = 60.0
+TIMEOUT = 1800.0
 RULE = ('sift/mask: every non-final F_A signal (length 6..L) and every F_B signal x option sets, all caps from 1 to '
         'ncols+2 in each case; variants: every (variant, signal, nensembles, noise, cap) combination of the grid; '
         'non-trivial = the uncapped decomposition has >= 2 columns (sift/mask) or the cap is binding (variants)')
